@@ -312,4 +312,14 @@ def rule_f(prog, rep):
         rep.violation('C05.f', 'insert:lockstep', f.loc, 'insert does not advance the subscriber cursor with the data cursor', key='C05.f/insert/lockstep')
 
 
-RULES = [('C05.f', rule_f), ('C05.a', rule_a), ('C05.b', rule_b), ('C05.c', rule_c), ('C05.e', rule_e)]
+def rule_g(prog, rep):
+    rep.rule('C05.g', 'T1', 'the ls-subscriber registry (Store.subscribers, a trie keyed by parent path) is only ever extended '
+             'node-wise; an ls subscription leaves it by id (retain(|s| s.id != ..)); no trie node is removed - the mutators walk '
+             'this trie in lockstep with the data tree (C05.f), a pruned inner node would cut off the ls subscribers of every '
+             'deeper parent')
+    from .c03 import registry_mutations
+    registry_mutations(prog, rep, 'C05.g', 'store::Store::', 'HashMap<std::string::String, store::SubscribersNode', 'Vec<subscribers::LsSubscriber',
+                       3, 'ls registry mutation sites (1 entry + 2 retain)')
+
+
+RULES = [('C05.g', rule_g), ('C05.f', rule_f), ('C05.a', rule_a), ('C05.b', rule_b), ('C05.c', rule_c), ('C05.e', rule_e)]
